@@ -224,6 +224,17 @@ def one_case(args):
             r = run([p] + margs + ["-c", t], stats="json")
             if r.abnormal(allowed_rc=(0,)):
                 return bad("custom check failure without -E: %s" % r.abnormal(allowed_rc=(0,)), r)
+            # the custom-check failure is the only error of the run: it is accounted like any other (code list, code filter)
+            if r.stats is not None:
+                es = r.stats["error_stats"]
+                if es["total_errors"] == 1 and "9001" not in [str(c) for c in es["unique_error_codes"]]:
+                    return bad("codes: the run's only error is [E9001] but unique_error_codes = %s" % es["unique_error_codes"], r)
+                if es["total_errors"] == 1:
+                    r4 = run([p] + margs + ["-c", t, "-w", "9001"], stats="json")
+                    if r4.abnormal(allowed_rc=(0,)):
+                        return bad("codes: -w 9001: %s" % r4.abnormal(allowed_rc=(0,)), r4)
+                    if "[E9001]" not in r4.stderr:
+                        return bad("codes: -w 9001 does not show the [E9001] message that is the run's only error", r4)
         elif kind == "noreport":
             # the contract does not depend on whether a report is printed: views and filtered writing with a non-fatal error
             # ([E100] from an input that ends inside the last payload, [E9001] from a failing custom check) return N as well
